@@ -3,15 +3,15 @@ VIEW View
 CONSTANTS
   Streams = {1, 3}
   Role = "server"
-  Bud <- BudQuick
+  Bud <- BudThorough
   MaxInq = 2
   MaxBurst = 2
   SetVals = {0, 1}
   PingVals = {1, 2}
-  AckVals = {100, 101}
+  AckVals = {100, 101, 102}
   GoAwayIds = {0, 2147483647}
   Codes = {0, 11}
-  AbruptCodes = {2}
+  AbruptCodes = {0, 2}
   AllowEof = TRUE
   LocalVals = {1}
   HarnessPing = FALSE
